@@ -40,7 +40,12 @@ io.open = _dispatch
 
 # which events a fault kind may fire at
 APPLICABLE = {
-    "interrupt": {"T.write", "T.read", "T.readline", "T.readlines", "T.next", "T.close",
+    # A cancellation is delivered between two bytecodes of the client (= at the entry of one
+    # of its calls) or out of an interrupted raw transfer (EINTR -> signal handler raises).
+    # It is NOT delivered at the entry of close(): for `with open(...)` that call is made by
+    # the interpreter's __exit__ protocol, inside which no handler runs before the C close
+    # has begun, and CPython's close() releases the descriptor even when its flush raises.
+    "interrupt": {"T.write", "T.read", "T.readline", "T.readlines", "T.next",
                   "R.write", "R.readinto"},
     "oserror_write": {"R.write"},
     "short_write": {"R.write"},
